@@ -286,7 +286,7 @@ def run(ctx):
     hists = mc.hist_model(ctx, 3 if q else 4)
 
     mc.lap("tlc models")
-    threads(ctx, [i for i in corpus if "historical" not in i.tags][: (2 if q else 6)], events, metas,
+    threads(ctx, [i for i in corpus if "historical" not in i.tags][: (2 if q else 4)], events, metas,
             pool_events, pool_meta, intern, rowintern, orders)
     mc.lap("threads")
     tiny = mc.tiny_inputs_with_keys(ctx.seed, set(s["K"] for s in scheds))
